@@ -162,9 +162,14 @@ def _run_multi(case):
 
     def as_array(d, order):
         return xr.DataArray([d[l] for l in order], dims="illumination", coords={"illumination": order})
+    def shuffled(d):
+        """same mapping, keys inserted in a random order (a dict's meaning must not depend on its insertion order)"""
+        ks = [labs[i] for i in rng.permutation(nch)]
+        return {k: d[k] for k in ks}
+    wl, scaling, noise, nidx, rad = shuffled(wl), shuffled(scaling), shuffled(noise), shuffled(nidx), shuffled(rad)
     wl_arg = wl if form["wl"] == "dict" else as_array(wl, labs if form["wl"] == "array" else perm)
     if form["pol"] == "dict":
-        pol_arg = {l: tuple(v) for l, v in pol.items()}
+        pol_arg = {l: tuple(v) for l, v in shuffled(pol).items()}
     else:
         pol_arg = xr.concat([to_vector(pol[l]) for l in perm], xr.DataArray(perm, dims="illumination", name="illumination"))
     n_arg = nidx if form["n"] == "dict" else (as_array(nidx, perm) if form["n"] == "array_perm" else nidx[labs[0]])
